@@ -102,4 +102,4 @@ def run(rep):
 
 
 def replay(rep, saved):
-    crop.replay_saved(rep, saved)
+    crop.replay_saved(rep, saved, claims=lambda tag: tag.startswith(CLAIMS_PREFIX))
